@@ -80,6 +80,13 @@ func CheckStorageHealth(storage SlabStorage, expectedNumberOfRootSlabs int) (map
 		}
 	}
 
+	// Every referenced slab must be in storage (no dangling references).
+	for sid, parentID := range parentOf {
+		if _, ok := slabs[sid]; !ok {
+			return nil, NewSlabNotFoundErrorf(sid, "slab referenced by %s is not found in storage", parentID)
+		}
+	}
+
 	rootsMap := make(map[SlabID]struct{})
 	visited := make(map[SlabID]struct{})
 	var id SlabID
